@@ -541,7 +541,7 @@ func init() {
 	core.Register(&core.Check{
 		Spec: core.Spec{
 			Prop:        "C18",
-			Rule:        "The monitor binary is built with -race and the workload runs in child processes with GORACE=halt_on_error=0 log_path=...; the parent parses the logs: every 'WARNING: DATA RACE' block is normalised (function names of both access stacks, line numbers stripped), de-duplicated by the pair of innermost repository frames (outermost entry points in the detail) and is a violation unless listed; reports without a repository frame count as inconclusive (harness). Workload per batch on one loaded node (Config.Truncate=2000) for >= 9 s (quick) / 30 s (thorough), i.e. several periods of the real 2 s retry ticker: 2 feeder nodes delivering their own branches (one of them hands every 4th vertex over child-before-parent and a second peer goroutine delivers every other vertex that got parked once more half a millisecond later (the same vertex from another peer, while the first copy is parked), after which its branch queues up behind the orphan buffer, so that the orphan buffer is in use while the real ticker drains it; the retry hook is not used), 2 local proposers, 2 balance readers, a history reader, an impatient client whose balance / history reads are cancelled after 1-37 visited ancestors or after 50-250 microseconds, a by-hash reader, a repeating DAG stream consumer and a slow one (in mid-stream nearly all the time) that read every field of the vertices they are handed, as does the by-hash reader, trusted-store updates; odd batches pre-build a 1080 vertex ledger and add truncation: a vertex of weight 3600+ makes the node's own truncation loop run the real truncate in its goroutine, plus truncations through the hook. A run in which vertices were parked but none was admitted by the real ticker is inconclusive. Non-trivial = every workload; evaluations = operations executed. Stream consumers and the by-hash reader read every field of what they are handed.",
+			Rule:        "The monitor binary is built with -race and the workload runs in child processes with GORACE=halt_on_error=0 log_path=...; the parent parses the logs: every 'WARNING: DATA RACE' block is normalised (function names of both access stacks, line numbers stripped), de-duplicated by the pair of innermost repository frames (outermost entry points in the detail) and is a violation unless listed; reports without a repository frame count as inconclusive (harness). Workload per batch on one loaded node (Config.Truncate=2000) for >= 9 s (quick) / 30 s (thorough), i.e. several periods of the real 2 s retry ticker: 2 feeder nodes delivering their own branches (one of them hands every 4th vertex over child-before-parent and a second peer goroutine delivers every other vertex that got parked once more half a millisecond later (the same vertex from another peer, while the first copy is parked), after which its branch queues up behind the orphan buffer, so that the orphan buffer is in use while the real ticker drains it; the retry hook is not used), 2 local proposers, 2 balance readers, a history reader, an impatient client whose balance / history reads are cancelled after 1-37 visited ancestors or after 50-250 microseconds, a by-hash reader, a repeating DAG stream consumer and a slow one (in mid-stream nearly all the time) that read every field of the vertices they are handed, as does the by-hash reader, trusted-store updates; odd batches pre-build a 1080 vertex ledger and add truncation: a vertex of weight 3600+ makes the node's own truncation loop run the real truncate in its goroutine, plus truncations through the hook. A run in which vertices were parked but none was admitted by the real ticker is inconclusive. Non-trivial = every workload; evaluations = operations executed. Stream consumers and the by-hash reader read every field of what they are handed. Two goroutines pull unknown hashes during the whole race workload.",
 			Assumptions: []string{"the Go race detector reports only races that occur in the executed schedule", "the snapshot hook is not used while the workload runs (only VerifParkedLen, which takes the buffer's own lock)"},
 			MinEvals:    2000, MinNontriv: 2,
 			MinCounters: map[string]int{"c18_propose": 50, "c18_deliver": 50, "c18_balance": 50, "c18_stream": 5, "c18_deliver_orphan_first": 4},
